@@ -2,12 +2,12 @@
 search: the three clauses on the implementation (vh c15 oracle)."""
 from ..common import *
 from ..stages import *
-from ..engine_k import engine_correspondence
+from ..engine_k import engine_correspondence, engine_event_correspondence
 
 
 def run(rep, tier, seed, replay=None):
     res, changed = proof_stage(rep, 'C15', extra_trusted=[
-        'engine skeleton Model/Engine.v is hand-written (tied by the dirty-flag correspondence and trace validation)',
+        'engine skeleton Model/Engine.v is hand-written (tied by the dirty-flag correspondence, the event-level correspondence with the real algorithms replayed, and trace validation)',
         'interface hypotheses WF, H1 on the real algorithms: validated on every traced pass, not proved',
         'C15_second_pass_silent needs a reflexive key: for the real cache this is C02_store_hit (NaN-free known dimensions, finite definite available space)'])
     rc, out, binp, dt = build_harness('release')
@@ -15,6 +15,7 @@ def run(rep, tier, seed, replay=None):
         rep.add_broken('build', 'harness', out[-1500:])
         return
     engine_correspondence(rep, binp, seed + 15, 400 if tier == 'quick' else 4000)
+    engine_event_correspondence(rep, binp, seed + 15, 600 if tier == 'quick' else 6000)
     n = 1500 if tier == 'quick' and not rep.broken else 15000
     start = 0
     if replay:
